@@ -42,7 +42,7 @@ class SiteMap:
         self.cache = {}
         self.base = None
         try:
-            rc, out, _ = vf.run(['git', '-C', str(vf.REPO), 'rev-list', '--max-parents=0', 'HEAD'], timeout=60)
+            rc, out, _ = vf.run(['git', '-C', '/repo', 'rev-list', '--max-parents=0', 'HEAD'], timeout=60)
             if rc == 0 and out.split():
                 self.base = out.split()[-1]
         except Exception:
@@ -53,7 +53,7 @@ class SiteMap:
             m = None
             try:
                 cur = (vf.REPO / path).read_text().splitlines()
-                rc, old, _ = vf.run(['git', '-C', str(vf.REPO), 'show', f'{self.base}:{path}'], timeout=60) if self.base else (1, '', '')
+                rc, old, _ = vf.run(['git', '-C', '/repo', 'show', f'{self.base}:{path}'], timeout=60) if self.base else (1, '', '')
                 if rc == 0:
                     m = {}
                     sm = difflib.SequenceMatcher(None, old.splitlines(), cur, autojunk=False)
